@@ -139,6 +139,8 @@ pub enum CallKind {
     Next,
     Finish,
     State,
+    /// start() on a stream that has already been started: documented to do nothing and return Ok(())
+    StartAgain,
 }
 
 #[derive(Clone, Debug, Serialize, Deserialize)]
@@ -165,7 +167,7 @@ pub struct Case {
 fn strat(_: &Ctx) -> BoxedStrategy<Case> {
     let item = (prop_oneof![4 => respgen::entry_resp(), 2 => respgen::reference_resp(), 2 => respgen::intermediate_resp()], proptest::option::weighted(0.4, resp_controls(2))).prop_map(|(resp, ctrls)| ItemSpec { resp, ctrls });
     let variant = prop_oneof![3 => Just(Variant::Direct), 3 => Just(Variant::EntriesOnly), 1 => Just(Variant::Pass), 1 => Just(Variant::PassEntriesOnly), 1 => Just(Variant::EntriesOnlyPass), 2 => Just(Variant::Conv), 2 => Just(Variant::Paged), 2 => Just(Variant::EntriesOnlyPaged), 2 => Just(Variant::PagedEntriesOnly), 2 => Just(Variant::FailOnRef), 2 => Just(Variant::ChainTail)];
-    let call = prop_oneof![5 => Just(CallKind::Next), 2 => Just(CallKind::Finish), 2 => Just(CallKind::State)];
+    let call = prop_oneof![10 => Just(CallKind::Next), 4 => Just(CallKind::Finish), 4 => Just(CallKind::State), 1 => Just(CallKind::StartAgain)];
     let script = prop_oneof![
         3 => vec(call, 1..=14),
         // happy path with extra calls at the end
@@ -255,6 +257,8 @@ fn model(c: &Case) -> Vec<Ret> {
     for call in &c.script {
         match call {
             CallKind::State => out.push(Ret::State(state)),
+            // no effect whatever the state; reported as the state so that the comparison stays simple
+            CallKind::StartAgain => out.push(Ret::State("start-again:ok")),
             CallKind::Next => {
                 if state != "Active" {
                     out.push(Ret::None);
@@ -318,6 +322,10 @@ async fn drive_script<'a>(mut s: SearchStream<'a, &'a str, Vec<&'a str>>, script
     for call in script {
         match call {
             CallKind::State => out.push(Ret::State(state_name(s.state()))),
+            CallKind::StartAgain => out.push(match s.start("dc=other", Scope::Base, "(cn=again)", vec!["cn"]).await {
+                Ok(()) => Ret::State("start-again:ok"),
+                Err(e) => Ret::Err(format!("start-again:{}", err_kind(&e))),
+            }),
             CallKind::Next => match s.next().await {
                 Ok(Some(re)) => out.push(Ret::Item(from_lib(&re.0).unwrap_or(Tlv::prim(0, 0, vec![])), ctl_vec(&re.1))),
                 Ok(None) => out.push(Ret::None),
@@ -542,6 +550,7 @@ pub fn check(case: &Case, obs: &mut Obs) -> Result<(), Fail> {
                 (CallKind::State, _, _) => "c10:state".to_string(),
                 (CallKind::Next, _, _) => "c10:next".to_string(),
                 (CallKind::Finish, _, _) => "c10:finish".to_string(),
+                (CallKind::StartAgain, _, _) => "c10:start-again".to_string(),
             };
             fail!(sig, "call #{} ({:?}) on {:?} stream returned {}, the state machine says {} (script {:?}, {} items, cut {:?})", k, call, case.variant, short(g), short(w), case.script, case.items.len(), case.cut_after);
         }
@@ -572,6 +581,10 @@ pub fn check(case: &Case, obs: &mut Obs) -> Result<(), Fail> {
                 finished = true;
             }
             CallKind::State => {}
+            CallKind::StartAgain => {
+                off_path = true;
+                obs.label("start-on-a-started-stream");
+            }
         }
     }
     let kinds = case.items.iter().map(|i| std::mem::discriminant(&i.resp)).collect::<std::collections::HashSet<_>>().len();
@@ -594,7 +607,7 @@ pub fn property() -> Property {
     Property {
         id: "C10",
         level: "exploration",
-        rule: "generated: a server item sequence (0-8 of entry / reference with 1-3 URIs / intermediate, each with 0-2 controls), a final result (any code, referrals, controls), optionally a connection cut after k PDUs; a stream variant (direct, EntriesOnly, user pass-through adapter, [pass-through, EntriesOnly], [EntriesOnly, pass-through], PagedResults and [EntriesOnly, PagedResults] with the item sequence served in generated pages (optionally with the connection lost at a page boundary), a user adapter that fails on a reference message, a user adapter that runs a second search configured with adapter_chain_tail() once the first has ended, or the search() call); a call script of 1-14 calls from next/finish/state in any order (incl. next after the end, early finish, next after finish, double finish). Oracle: reference state machine of DESIGN.md Appendix B - every return value (items with their controls in server order, Ok(None), errors, finish() = server result iff read to the end else code 88, second finish code 80) and every state() equal the model; search(): entries in order, referral list = result referrals + all reference URIs as a multiset, intermediates dropped. Non-trivial: the script leaves the happy path or the item sequence mixes >=2 kinds. Distinct = debug rendering of the case.",
+        rule: "generated: a server item sequence (0-8 of entry / reference with 1-3 URIs / intermediate, each with 0-2 controls), a final result (any code, referrals, controls), optionally a connection cut after k PDUs; a stream variant (direct, EntriesOnly, user pass-through adapter, [pass-through, EntriesOnly], [EntriesOnly, pass-through], PagedResults and [EntriesOnly, PagedResults] with the item sequence served in generated pages (optionally with the connection lost at a page boundary), a user adapter that fails on a reference message, a user adapter that runs a second search configured with adapter_chain_tail() once the first has ended, or the search() call); a call script of 1-14 calls from next/finish/state (and, rarely, start() on the already started stream, a documented no-op) in any order (incl. next after the end, early finish, next after finish, double finish). Oracle: reference state machine of DESIGN.md Appendix B - every return value (items with their controls in server order, Ok(None), errors, finish() = server result iff read to the end else code 88, second finish code 80) and every state() equal the model; search(): entries in order, referral list = result referrals + all reference URIs as a multiset, intermediates dropped. Non-trivial: the script leaves the happy path or the item sequence mixes >=2 kinds. Distinct = debug rendering of the case.",
         assumptions: &["all PDUs of the search are delivered before the calls are made, so call results do not depend on timing", "synthetic results are compared by code only"],
         lanes: vec![Box::new(PLane { name: "streams", cases: |t| t.pick(2_000, 30_000), strat, check })],
         workers: (8, 16),
